@@ -22,8 +22,29 @@ def distinctStrs : List String → Bool
   | [] => true
   | x :: xs => !xs.contains x && distinctStrs xs
 
-/-- split "GoName:jsonName:type" of the wrapper-struct tables -/
-def shadowParts (s : String) : List String := s.splitOn ":"
+/-- split at ':' -/
+def splitColon (cs : List Char) : List (List Char) :=
+  cs.foldr (fun c acc => if c == ':' then [] :: acc else
+    match acc with
+    | [] => [[c]]
+    | a :: r => (c :: a) :: r) [[]]
+
+/-- the parts of a "GoName:jsonName:type" entry of the wrapper-struct tables -/
+def shadowGo (s : String) : String :=
+  match splitColon s.toList with
+  | g :: _ => String.ofList g
+  | _ => ""
+def shadowName (s : String) : String :=
+  match splitColon s.toList with
+  | _ :: n :: _ => String.ofList n
+  | _ => ""
+def shadowType (s : String) : String :=
+  match splitColon s.toList with
+  | _ :: _ :: t :: _ => String.ofList t
+  | _ => ""
+
+/-- JSON names given by a struct tag of Schema -/
+def taggedNames : List String := (Generated.schemaFields.filter fun f => f.2.2.1 != "-").map (·.2.2.1)
 
 end Go
 end JSV
